@@ -227,7 +227,8 @@ fn read_inputs(tier: Tier) -> Vec<ReadInput> {
     }
     // npy inputs
     let np = Spelling::numpy();
-    for (descr, size, shape, version) in [("<f8", 8usize, vec![3usize, 4], 1u8), (">i2", 2, vec![7], 2), ("|u1", 1, vec![2, 3, 2], 3)] {
+    // three small files, and two of 2 000 eight-byte values (beyond the 512-value / 4 KiB thresholds of bulk paths)
+    for (descr, size, shape, version) in [("<f8", 8usize, vec![3usize, 4], 1u8), (">i2", 2, vec![7], 2), ("|u1", 1, vec![2, 3, 2], 3), ("<f8", 8, vec![40, 50], 1), (">f8", 8, vec![2000], 2)] {
         let n: usize = shape.iter().product();
         let data: Vec<u8> = (0..n * size).map(|b| (b * 5 + 3) as u8 & 0x3f).collect();
         let bytes = synth(version, &dict_text(descr, false, &shape, &np), &data);
@@ -254,8 +255,13 @@ fn write_spectra() -> Vec<RefArray> {
         RefArray::from_fn(&[40], |f, _| (f as f64).sqrt()),
         RefArray::from_fn(&[3, 1], |f, _| -(f as f64)),
         RefArray::from_fn(&[1, 1, 1], |_, _| f64::INFINITY),
+        // beyond 512 and 4096 values (batching thresholds of writers); 3.25 carries a 0x0A byte
+        RefArray::from_fn(&[1000], |f, _| if f % 97 == 3 { 3.25 } else { f as f64 + 0.5 }),
+        RefArray::from_fn(&[70, 70], |f, _| (f % 1013) as f64 * 0.25 + 1.0),
     ]
 }
+
+const FIRST_BIG_WRITE: usize = 8;
 
 fn write_with(x: &RefArray, format: Format, p: usize, w: &mut SeamWriter) -> Result<(), String> {
     let scs = scs_from_ref(x);
@@ -290,7 +296,9 @@ fn eval_write(si: usize, format: Format, p: usize) -> (u64, Vec<Viol>) {
             ("what", J::s(what)),
         ])
     };
-    for k in [1usize, 2, 3, 7] {
+    let big = si >= FIRST_BIG_WRITE;
+    let short_sizes: &[usize] = if big { &[1, 7, 512, 1000, 4095, 4096, 4097] } else { &[1, 2, 3, 7] };
+    for &k in short_sizes {
         evals += 1;
         let mut w = SeamWriter::short(k);
         match write_with(x, format, p, &mut w) {
@@ -303,6 +311,10 @@ fn eval_write(si: usize, format: Format, p: usize) -> (u64, Vec<Viol>) {
         }
     }
     for at in 0..base.len() {
+        // large outputs: every offset of the first 200 bytes, every 61st offset, and the neighbourhood of every multiple of 4096
+        if big && !(at < 200 || at % 61 == 0 || at % 4096 <= 2 || at % 4096 >= 4094 || at + 3 >= base.len()) {
+            continue;
+        }
         for zero in [false, true] {
             evals += 1;
             let mut w = SeamWriter::short(usize::MAX);
@@ -365,7 +377,7 @@ fn eval_pipe(c: Container, bytes: &[u8], first: usize, scratch: &Scratch) -> Opt
 
 pub fn run(tier: Tier) -> i32 {
     let mut rep = Report::new("C18", tier, "fault_enumeration");
-    rep.rule = "read side: for each input (a 9-record call set as vcf / vcf.gz / bcf / raw bcf in two BGZF layouts, 1-2 worker threads, through the real detection + reader construction via hook 1; three npy files through Array::read_npy) the chunk schedule is explored by deviation bound: 0 cuts, every single cut offset (= a first chunk of any length), every pair of cuts (thorough), periodic chunks of 1,2,3,7,64 bytes; result must equal the one-chunk result. A read fault is injected at every byte offset (alone, after a cut at f-1, and under each periodic schedule): if the error was delivered the result must be Err. write side: 8 spectra x {text p=0,6,17; npy} through writers accepting 1,2,3,7 bytes per call (identical bytes) and failing / returning Ok(0) at every offset (must be Err). Real pipes with a delayed second write confirm end to end. Non-trivial = a schedule with >=1 deviation.".into();
+    rep.rule = "read side: for each input (a 9-record call set as vcf / vcf.gz / bcf / raw bcf in two BGZF layouts, 1-2 worker threads, through the real detection + reader construction via hook 1; five npy files, two of them with 2 000 values, through Array::read_npy) the chunk schedule is explored by deviation bound: 0 cuts, every single cut offset (= a first chunk of any length), every pair of cuts (thorough), periodic chunks of 1,2,3,7,64,4099,6001,8191 bytes; result must equal the one-chunk result. A read fault is injected at every byte offset (alone, after a cut at f-1, and under each periodic schedule): if the error was delivered the result must be Err. write side: 8 spectra x {text p=0,6,17; npy} through writers accepting 1,2,3,7 bytes per call (identical bytes) and failing / returning Ok(0) at every offset (must be Err). Real pipes with a delayed second write confirm end to end. Non-trivial = a schedule with >=1 deviation.".into();
 
     let inputs = read_inputs(tier);
     // baselines
@@ -397,7 +409,7 @@ pub fn run(tier: Tier) -> i32 {
         for c in 1..len {
             jobs.push((i, Schedule::cuts(&[c])));
         }
-        for k in [1usize, 2, 3, 7, 64] {
+        for k in [1usize, 2, 3, 7, 64, 4099, 6001, 8191] {
             jobs.push((i, Schedule::periodic(k)));
         }
         if tier.thorough() {
@@ -407,7 +419,8 @@ pub fn run(tier: Tier) -> i32 {
             // pairs are run for plain inputs and for the single-block BGZF inputs with one inflater
             // thread; for the other BGZF inputs the first cut ranges over the detection-relevant prefix
             let full_pairs = inp.threads == 1 && (inp.first_block == 0 || inp.name.contains("single"));
-            let a_max = if full_pairs { len } else { (inp.first_block + 32).min(len) };
+            // (inputs of several KiB: the first cut ranges over the header and the first values only)
+            let a_max = if full_pairs && len <= 2000 { len } else if full_pairs { 200.min(len) } else { (inp.first_block + 32).min(len) };
             for a in 1..a_max {
                 for b in a + 1..len {
                     jobs.push((i, Schedule::cuts(&[a, b])));
@@ -492,7 +505,7 @@ pub fn run(tier: Tier) -> i32 {
         name: "lib: write-side short writes and faults".into(),
         evaluations: ev,
         nontrivial: ev,
-        note: "8 spectra x {text p=0,6,17; npy}: 4 short-write schedules, Err and Ok(0) at every offset".into(),
+        note: "8 small spectra x {text p=0,6,17; npy}: 4 short-write schedules, Err and Ok(0) at every offset; 2 spectra of 1 000 and 4 900 values: writers accepting 1..4097 bytes per call, faults at the first 200 offsets, every 61st offset and around every multiple of 4096".into(),
         exhaustive: true,
         extra: vec![],
     });
